@@ -61,18 +61,27 @@ func (h *harness) scenarioCrashWAL(pre *gateFS, refDump nodeDump, nSyncs int) bo
 	if nSyncs == 0 {
 		return false
 	}
+	// Logical crash states of a restore with N synchronous commits: "j commits
+	// durable", j = 0..N-1 (the complete state N is the fault-free case). State j
+	// is reached physically either by losing the unsynced tail just before sync
+	// j+1 (power loss) or by keeping it just before sync j (process kill while
+	// commit j is written but not yet synced); the tape picks the variant.
 	var all []crashPoint
-	for k := 1; k <= nSyncs; k++ {
-		all = append(all, crashPoint{k, false}, crashPoint{k, true})
+	for j := 0; j < nSyncs; j++ {
+		if j > 0 && tp.Chance(1, 2) {
+			all = append(all, crashPoint{j, true})
+		} else {
+			all = append(all, crashPoint{j + 1, false})
+		}
 	}
-	const maxPoints = 10
+	const maxPoints = 8
 	pts := all
 	exhaustive := true
 	if len(all) > maxPoints {
 		exhaustive = false
 		pts = nil
 		pick := map[int]bool{}
-		for len(pick) < maxPoints {
+		for len(pick) < maxPoints-2 {
 			pick[tp.Intn(len(all))] = true
 		}
 		idx := make([]int, 0, len(pick))
@@ -188,7 +197,7 @@ func (h *harness) scenarioCrashRead(pre *gateFS, refDump nodeDump) bool {
 		if tp.Chance(1, 4) {
 			pass = 1 + tp.Intn(pass)
 		}
-		trigs = append(trigs, &trig{at: int64(tp.Intn(len(fr.data))), pass: pass, keep: tp.Chance(1, 2)})
+		trigs = append(trigs, &trig{at: h.pickOffset(fr, which), pass: pass, keep: tp.Chance(1, 2)})
 	}
 	fr.onRead = func(from, to int64) {
 		for _, tg := range trigs {
@@ -385,7 +394,7 @@ func (h *harness) scenarioIOError(pre *gateFS, preDump, refDump nodeDump) bool {
 	if mode == modeDirect {
 		passes = 3
 	}
-	fr.errAt = int64(tp.Intn(len(fr.data)))
+	fr.errAt = h.pickOffset(fr, idx)
 	// benign-first ordering is irrelevant here; bias to the last (applying) pass
 	fr.errPass = passes
 	if tp.Chance(1, 2) {
@@ -442,4 +451,20 @@ func (h *harness) scenarioIOError(pre *gateFS, preDump, refDump nodeDump) bool {
 		r.Probe("cleanup.complete")
 	}
 	return h.retryAndCompare(n, h.pickMode(), refDump, "stream.io_error", "after an I/O error")
+}
+
+// pickOffset chooses a stream offset; in runs with a channel larger than one
+// import batch it is biased to the tail of the first message stream, where the
+// second batch of that channel and the following channels are applied.
+func (h *harness) pickOffset(fr *faultReader, idx int) int64 {
+	tp := h.r.Tape
+	n := len(fr.data)
+	if h.big && idx == 1 && tp.Chance(2, 3) {
+		tail := n / 8
+		if tail < 1 {
+			tail = 1
+		}
+		return int64(n - 1 - tp.Intn(tail))
+	}
+	return int64(tp.Intn(n))
 }
